@@ -306,6 +306,11 @@ def run_subarray(ctx, P, A):
             while top[0] in ('cast', 'conv'):
                 top = top[2]
             is_product = top[0] == 'bin' and top[1] == '*' or (top[0] == 'var' and any(d[0] == 'bin' and d[1] == '*' for d in defs.get(top, [])))
+            handed = any(x[0] == 'call' and any(a_[0] == 'var' and a_[2] == 'array_of_sizes' or (a_[0] == 'bin' and any(y[0] == 'var' and y[2] == 'array_of_sizes' for y in ex.subterms(a_)) and
+                                                     not any(y[0] == 'idx' for y in ex.subterms(a_))) for a_ in (x[3] if len(x) > 3 and isinstance(x[3], tuple) else ())) for x in flows)
+            if handed and not prod:
+                ctx.unrecognised('R6', '%s: the array of sizes is handed to a function (an accumulate?) on its way to the extent; the product is not read by this rule' % label)
+                continue
             ok = lbv == ('int', 0) and has_ext and has_sizes and prod and is_product
             ctx.check(ok, 'R6', '%s: resized to lb 0 and extent = elements of the whole array x extent of the element type' % label, where(f, e.line),
                       'create_resized(_, %s, %s, _): extent of the element type %s, array_of_sizes %s%s' % (ex.pretty(lbv), ex.pretty(extv)[:80], 'reaches it' if has_ext else 'does not reach it',
